@@ -1,6 +1,14 @@
 //! C09: checksum helpers and protocol checksums.
+//! Helper tags: h64 h32 seq.  Protocol tags (one per crate function): ip4h,
+//! udp4 udp6 udp4w udp6w, tcp4 tcp6 tcp4hs tcp6hs tcp4s tcp6s, icmp4, icmp6,
+//! icmp6v, igmp, upd4 upd6.  Output: `ck=<u16>` (+ ` hdr=<bytes written with
+//! that checksum>` where the crate serialises the header), `err=<actual>,<max>`,
+//! `reject` (from_slice refused the bytes), `valid=0|1`.  Where two entry points
+//! must agree (raw / non-raw, calc / with_checksum / update_checksum) the
+//! harness calls both and prints `DISAGREE ...` if they differ.
 use vh::*;
 use etherparse::checksum::*;
+use etherparse::*;
 
 fn main() {
     main_loop(run);
@@ -77,6 +85,421 @@ fn run(line: &str) -> String {
                 u32_16bit_word::ones_complement(s32).to_be(),
                 u32_16bit_word::ones_complement_with_no_zero(s32).to_be()
             )
+        }
+        _ => proto(tag, &mut it),
+    }
+}
+
+type It<'a> = std::str::SplitWhitespace<'a>;
+
+fn num(it: &mut It) -> u64 {
+    it.next().unwrap().parse().unwrap()
+}
+fn bytes(it: &mut It) -> Vec<u8> {
+    unhex(it.next().unwrap())
+}
+fn a4(it: &mut It) -> [u8; 4] {
+    bytes(it)[..].try_into().unwrap()
+}
+fn a16(it: &mut It) -> [u8; 16] {
+    bytes(it)[..].try_into().unwrap()
+}
+fn res(r: Result<u16, err::ValueTooBigError<usize>>) -> String {
+    match r {
+        Ok(v) => format!("ck={}", v),
+        Err(e) => format!("err={},{}", e.actual, e.max_allowed),
+    }
+}
+fn same(a: String, b: String, what: &str) -> String {
+    if a == b {
+        a
+    } else {
+        format!("DISAGREE {} {} / {}", what, a, b)
+    }
+}
+fn ip4_with(src: [u8; 4], dst: [u8; 4]) -> Ipv4Header {
+    let mut h: Ipv4Header = Default::default();
+    h.source = src;
+    h.destination = dst;
+    h
+}
+fn ip6_with(src: [u8; 16], dst: [u8; 16]) -> Ipv6Header {
+    let mut h: Ipv6Header = Default::default();
+    h.source = src;
+    h.destination = dst;
+    h
+}
+
+fn udp_hdr(it: &mut It) -> UdpHeader {
+    UdpHeader {
+        source_port: num(it) as u16,
+        destination_port: num(it) as u16,
+        length: num(it) as u16,
+        checksum: 0x5a5a, // must not be read
+    }
+}
+
+fn tcp_hdr(it: &mut It) -> TcpHeader {
+    let mut h = TcpHeader::new(num(it) as u16, num(it) as u16, num(it) as u32, 0);
+    h.acknowledgment_number = num(it) as u32;
+    let f = num(it);
+    h.ns = f & 256 != 0;
+    h.fin = f & 1 != 0;
+    h.syn = f & 2 != 0;
+    h.rst = f & 4 != 0;
+    h.psh = f & 8 != 0;
+    h.ack = f & 16 != 0;
+    h.urg = f & 32 != 0;
+    h.ece = f & 64 != 0;
+    h.cwr = f & 128 != 0;
+    h.window_size = num(it) as u16;
+    h.urgent_pointer = num(it) as u16;
+    h.checksum = 0xa5a5; // must not be read
+    let o = bytes(it);
+    h.set_options_raw(&o).unwrap();
+    h
+}
+
+fn icmp4_type(it: &mut It) -> Icmpv4Type {
+    use etherparse::icmpv4::*;
+    let v = it.next().unwrap();
+    match v {
+        "unk" => Icmpv4Type::Unknown {
+            type_u8: num(it) as u8,
+            code_u8: num(it) as u8,
+            bytes5to8: a4(it),
+        },
+        "erep" => Icmpv4Type::EchoReply(IcmpEchoHeader { id: num(it) as u16, seq: num(it) as u16 }),
+        "ereq" => Icmpv4Type::EchoRequest(IcmpEchoHeader { id: num(it) as u16, seq: num(it) as u16 }),
+        "du" => {
+            let code = num(it) as u8;
+            let mtu = num(it) as u16;
+            Icmpv4Type::DestinationUnreachable(DestUnreachableHeader::from_values(code, mtu).unwrap())
+        }
+        "red" => Icmpv4Type::Redirect(RedirectHeader {
+            code: RedirectCode::from_u8(num(it) as u8).unwrap(),
+            gateway_internet_address: a4(it),
+        }),
+        "te" => Icmpv4Type::TimeExceeded(TimeExceededCode::from_u8(num(it) as u8).unwrap()),
+        "pp" => {
+            let code = num(it) as u8;
+            let p = num(it) as u8;
+            Icmpv4Type::ParameterProblem(ParameterProblemHeader::from_values(code, p).unwrap())
+        }
+        "tsq" | "tsr" => {
+            let m = TimestampMessage {
+                id: num(it) as u16,
+                seq: num(it) as u16,
+                originate_timestamp: num(it) as u32,
+                receive_timestamp: num(it) as u32,
+                transmit_timestamp: num(it) as u32,
+            };
+            if v == "tsq" {
+                Icmpv4Type::TimestampRequest(m)
+            } else {
+                Icmpv4Type::TimestampReply(m)
+            }
+        }
+        _ => panic!("bad icmp4 variant {}", v),
+    }
+}
+
+fn icmp6_type(it: &mut It) -> Icmpv6Type {
+    use etherparse::icmpv6::*;
+    let v = it.next().unwrap();
+    match v {
+        "unk" => Icmpv6Type::Unknown {
+            type_u8: num(it) as u8,
+            code_u8: num(it) as u8,
+            bytes5to8: a4(it),
+        },
+        "du" => Icmpv6Type::DestinationUnreachable(DestUnreachableCode::from_u8(num(it) as u8).unwrap()),
+        "ptb" => Icmpv6Type::PacketTooBig { mtu: num(it) as u32 },
+        "te" => Icmpv6Type::TimeExceeded(TimeExceededCode::from_u8(num(it) as u8).unwrap()),
+        "pp" => Icmpv6Type::ParameterProblem(ParameterProblemHeader {
+            code: ParameterProblemCode::from_u8(num(it) as u8).unwrap(),
+            pointer: num(it) as u32,
+        }),
+        "ereq" => Icmpv6Type::EchoRequest(IcmpEchoHeader { id: num(it) as u16, seq: num(it) as u16 }),
+        "erep" => Icmpv6Type::EchoReply(IcmpEchoHeader { id: num(it) as u16, seq: num(it) as u16 }),
+        "rs" => Icmpv6Type::RouterSolicitation,
+        "ra" => Icmpv6Type::RouterAdvertisement(RouterAdvertisementHeader {
+            cur_hop_limit: num(it) as u8,
+            managed_address_config: num(it) != 0,
+            other_config: num(it) != 0,
+            router_lifetime: num(it) as u16,
+        }),
+        "ns" => Icmpv6Type::NeighborSolicitation,
+        "na" => Icmpv6Type::NeighborAdvertisement(NeighborAdvertisementHeader {
+            router: num(it) != 0,
+            solicited: num(it) != 0,
+            r#override: num(it) != 0,
+        }),
+        "red" => Icmpv6Type::Redirect,
+        _ => panic!("bad icmp6 variant {}", v),
+    }
+}
+
+fn igmp_type(it: &mut It) -> IgmpType {
+    use etherparse::igmp::*;
+    let v = it.next().unwrap();
+    match v {
+        "q" => IgmpType::MembershipQuery(MembershipQueryType {
+            max_response_time: num(it) as u8,
+            group_address: GroupAddress { octets: a4(it) },
+        }),
+        "qs" => IgmpType::MembershipQueryWithSources(MembershipQueryWithSourcesHeader {
+            max_response_code: MaxResponseCode(num(it) as u8),
+            group_address: GroupAddress { octets: a4(it) },
+            raw_byte_8: num(it) as u8,
+            qqic: num(it) as u8,
+            num_of_sources: num(it) as u16,
+        }),
+        "r1" => IgmpType::MembershipReportV1(MembershipReportV1Type {
+            group_address: GroupAddress { octets: a4(it) },
+        }),
+        "r2" => IgmpType::MembershipReportV2(MembershipReportV2Type {
+            group_address: GroupAddress { octets: a4(it) },
+        }),
+        "r3" => {
+            let f = bytes(it);
+            IgmpType::MembershipReportV3(MembershipReportV3Header {
+                flags: [f[0], f[1]],
+                num_of_records: num(it) as u16,
+            })
+        }
+        "lg" => IgmpType::LeaveGroup(LeaveGroupType {
+            group_address: GroupAddress { octets: a4(it) },
+        }),
+        "unk" => IgmpType::Unknown(UnknownHeader {
+            igmp_type: num(it) as u8,
+            raw_byte_1: num(it) as u8,
+            raw_bytes_4_7: a4(it),
+        }),
+        _ => panic!("bad igmp variant {}", v),
+    }
+}
+
+fn transport(kind: &str, it: &mut It) -> TransportHeader {
+    match kind {
+        "udp" => TransportHeader::Udp(udp_hdr(it)),
+        "tcp" => TransportHeader::Tcp(tcp_hdr(it)),
+        "icmp4" => TransportHeader::Icmpv4(Icmpv4Header { icmp_type: icmp4_type(it), checksum: 0x1234 }),
+        "icmp6" => TransportHeader::Icmpv6(Icmpv6Header { icmp_type: icmp6_type(it), checksum: 0x1234 }),
+        _ => panic!("bad transport kind {}", kind),
+    }
+}
+
+fn transport_ck(t: &TransportHeader) -> u16 {
+    match t {
+        TransportHeader::Udp(h) => h.checksum,
+        TransportHeader::Tcp(h) => h.checksum,
+        TransportHeader::Icmpv4(h) => h.checksum,
+        TransportHeader::Icmpv6(h) => h.checksum,
+    }
+}
+
+fn proto(tag: &str, it: &mut It) -> String {
+    match tag {
+        "ip4h" => {
+            let mut h: Ipv4Header = Default::default();
+            h.dscp = IpDscp::try_new(num(it) as u8).unwrap();
+            h.ecn = IpEcn::try_new(num(it) as u8).unwrap();
+            h.total_len = num(it) as u16;
+            h.identification = num(it) as u16;
+            h.dont_fragment = num(it) != 0;
+            h.more_fragments = num(it) != 0;
+            h.fragment_offset = IpFragOffset::try_new(num(it) as u16).unwrap();
+            h.time_to_live = num(it) as u8;
+            h.protocol = IpNumber(num(it) as u8);
+            h.source = a4(it);
+            h.destination = a4(it);
+            let o = bytes(it);
+            h.options = Ipv4Options::try_from(&o[..]).unwrap();
+            h.header_checksum = 0x7777; // must not be read
+            let ck = h.calc_header_checksum();
+            h.header_checksum = ck;
+            format!("ck={} hdr={}", ck, hex(&h.to_bytes()))
+        }
+        "udp4" => {
+            let h = udp_hdr(it);
+            let (s, d, p) = (a4(it), a4(it), bytes(it));
+            same(
+                res(h.calc_checksum_ipv4_raw(s, d, &p)),
+                res(h.calc_checksum_ipv4(&ip4_with(s, d), &p)),
+                "raw/hdr",
+            )
+        }
+        "udp6" => {
+            let h = udp_hdr(it);
+            let (s, d, p) = (a16(it), a16(it), bytes(it));
+            same(
+                res(h.calc_checksum_ipv6_raw(s, d, &p)),
+                res(h.calc_checksum_ipv6(&ip6_with(s, d), &p)),
+                "raw/hdr",
+            )
+        }
+        "udp4w" => {
+            let (sp, dp) = (num(it) as u16, num(it) as u16);
+            let (s, d, p) = (a4(it), a4(it), bytes(it));
+            match UdpHeader::with_ipv4_checksum(sp, dp, &ip4_with(s, d), &p) {
+                Ok(h) => format!("ck={} hdr={}", h.checksum, hex(&h.to_bytes())),
+                Err(e) => format!("err={},{}", e.actual, e.max_allowed),
+            }
+        }
+        "udp6w" => {
+            let (sp, dp) = (num(it) as u16, num(it) as u16);
+            let (s, d, p) = (a16(it), a16(it), bytes(it));
+            match UdpHeader::with_ipv6_checksum(sp, dp, &ip6_with(s, d), &p) {
+                Ok(h) => format!("ck={} hdr={}", h.checksum, hex(&h.to_bytes())),
+                Err(e) => format!("err={},{}", e.actual, e.max_allowed),
+            }
+        }
+        "tcp4" => {
+            let mut h = tcp_hdr(it);
+            let (s, d, p) = (a4(it), a4(it), bytes(it));
+            let r = h.calc_checksum_ipv4_raw(s, d, &p);
+            let out = same(res(r.clone()), res(h.calc_checksum_ipv4(&ip4_with(s, d), &p)), "raw/hdr");
+            if let Ok(ck) = r {
+                h.checksum = ck;
+                format!("{} hdr={}", out, hex(&h.to_bytes()))
+            } else {
+                out
+            }
+        }
+        "tcp6" => {
+            let mut h = tcp_hdr(it);
+            let (s, d, p) = (a16(it), a16(it), bytes(it));
+            let r = h.calc_checksum_ipv6_raw(s, d, &p);
+            let out = same(res(r.clone()), res(h.calc_checksum_ipv6(&ip6_with(s, d), &p)), "raw/hdr");
+            if let Ok(ck) = r {
+                h.checksum = ck;
+                format!("{} hdr={}", out, hex(&h.to_bytes()))
+            } else {
+                out
+            }
+        }
+        "tcp4hs" => {
+            let hb = bytes(it);
+            let (s, d, p) = (a4(it), a4(it), bytes(it));
+            match TcpHeaderSlice::from_slice(&hb) {
+                Err(_) => "reject".to_string(),
+                Ok(hs) => {
+                    // the Ipv4HeaderSlice variant needs a serialised IPv4 header
+                    let ipb = ip4_with(s, d).to_bytes();
+                    let ips = Ipv4HeaderSlice::from_slice(&ipb).unwrap();
+                    same(
+                        res(hs.calc_checksum_ipv4_raw(s, d, &p)),
+                        res(hs.calc_checksum_ipv4(&ips, &p)),
+                        "raw/hdr",
+                    )
+                }
+            }
+        }
+        "tcp6hs" => {
+            let hb = bytes(it);
+            let (s, d, p) = (a16(it), a16(it), bytes(it));
+            match TcpHeaderSlice::from_slice(&hb) {
+                Err(_) => "reject".to_string(),
+                Ok(hs) => {
+                    let ipb = ip6_with(s, d).to_bytes();
+                    let ips = Ipv6HeaderSlice::from_slice(&ipb).unwrap();
+                    same(
+                        res(hs.calc_checksum_ipv6_raw(s, d, &p)),
+                        res(hs.calc_checksum_ipv6(&ips, &p)),
+                        "raw/hdr",
+                    )
+                }
+            }
+        }
+        "tcp4s" => {
+            let b = bytes(it);
+            let (s, d) = (a4(it), a4(it));
+            match TcpSlice::from_slice(&b) {
+                Err(_) => "reject".to_string(),
+                Ok(ts) => res(ts.calc_checksum_ipv4(s, d)),
+            }
+        }
+        "tcp6s" => {
+            let b = bytes(it);
+            let (s, d) = (a16(it), a16(it));
+            match TcpSlice::from_slice(&b) {
+                Err(_) => "reject".to_string(),
+                Ok(ts) => res(ts.calc_checksum_ipv6(s, d)),
+            }
+        }
+        "icmp4" => {
+            let t = icmp4_type(it);
+            let p = bytes(it);
+            let ck = t.calc_checksum(&p);
+            let w = Icmpv4Header::with_checksum(t.clone(), &p);
+            let mut u = Icmpv4Header { icmp_type: t, checksum: 0x4321 };
+            u.update_checksum(&p);
+            if w.checksum != ck || u.checksum != ck {
+                return format!("DISAGREE calc={} with={} update={}", ck, w.checksum, u.checksum);
+            }
+            format!("ck={} hdr={}", ck, hex(&w.to_bytes()))
+        }
+        "icmp6" => {
+            let t = icmp6_type(it);
+            let (s, d, p) = (a16(it), a16(it), bytes(it));
+            let r = t.calc_checksum(s, d, &p);
+            match r {
+                Err(e) => format!("err={},{}", e.actual, e.max_allowed),
+                Ok(ck) => {
+                    let w = Icmpv6Header::with_checksum(t.clone(), s, d, &p).unwrap();
+                    let mut u = Icmpv6Header { icmp_type: t.clone(), checksum: 0x4321 };
+                    u.update_checksum(s, d, &p).unwrap();
+                    let th = t.to_header(s, d, &p).unwrap();
+                    if w.checksum != ck || u.checksum != ck || th.checksum != ck {
+                        return format!(
+                            "DISAGREE calc={} with={} update={} to_header={}",
+                            ck, w.checksum, u.checksum, th.checksum
+                        );
+                    }
+                    format!("ck={} hdr={}", ck, hex(&w.to_bytes()))
+                }
+            }
+        }
+        "icmp6v" => {
+            let b = bytes(it);
+            let (s, d) = (a16(it), a16(it));
+            match Icmpv6Slice::from_slice(&b) {
+                Err(_) => "reject".to_string(),
+                Ok(sl) => format!("valid={}", sl.is_checksum_valid(s, d) as u8),
+            }
+        }
+        "igmp" => {
+            let t = igmp_type(it);
+            let p = bytes(it);
+            let h0 = IgmpHeader { igmp_type: t.clone(), checksum: 0x4321 };
+            let ck = h0.calc_checksum(&p);
+            let w = IgmpHeader::with_checksum(t, &p);
+            if w.checksum != ck {
+                return format!("DISAGREE calc={} with={}", ck, w.checksum);
+            }
+            format!("ck={} hdr={}", ck, hex(&w.to_bytes()))
+        }
+        "upd4" => {
+            let kind = it.next().unwrap();
+            let mut t = transport(kind, it);
+            let (s, d, p) = (a4(it), a4(it), bytes(it));
+            match t.update_checksum_ipv4(&ip4_with(s, d), &p) {
+                Ok(()) => format!("ck={}", transport_ck(&t)),
+                Err(err::packet::TransportChecksumError::PayloadLen(e)) => {
+                    format!("err={},{}", e.actual, e.max_allowed)
+                }
+                Err(err::packet::TransportChecksumError::Icmpv6InIpv4) => "err=icmpv6-in-ipv4".to_string(),
+            }
+        }
+        "upd6" => {
+            let kind = it.next().unwrap();
+            let mut t = transport(kind, it);
+            let (s, d, p) = (a16(it), a16(it), bytes(it));
+            match t.update_checksum_ipv6(&ip6_with(s, d), &p) {
+                Ok(()) => format!("ck={}", transport_ck(&t)),
+                Err(e) => format!("err={},{}", e.actual, e.max_allowed),
+            }
         }
         _ => panic!("bad c09 tag {}", tag),
     }
